@@ -116,6 +116,10 @@ pub struct LoopSim {
     ack_ctr: u64,
     bind_phase: u8,
     run_no: u64,
+    /// outage schedules: data numbers that have not arrived (number, when first seen missing), late arrivals, highest
+    holes: VecDeque<(u32, u64)>,
+    filled: std::collections::HashSet<u32>,
+    rx_hi: u32,
     /// swallow schedules: the uplink whose first REG1 was lost, and whether the trace has been told
     swallow: Option<usize>,
     swallow_told: bool,
@@ -213,6 +217,9 @@ impl LoopSim {
             ack_ctr: 0,
             bind_phase: 0,
             run_no: 0,
+            holes: VecDeque::new(),
+            filled: Default::default(),
+            rx_hi: 0,
             swallow: None,
             swallow_told: false,
             blackout_phase: 0,
@@ -452,6 +459,22 @@ impl LoopSim {
                         self.bump("lossy_link_reports");
                         return;
                     }
+                    if self.profile == "outage" {
+                        // numbers skipped so far are holes (first seen missing now); a late arrival fills its hole
+                        if self.rx_hi != 0 && s > self.rx_hi + 1 && s - self.rx_hi < 5_000 {
+                            for q in self.rx_hi + 1..s {
+                                self.holes.push_back((q, now));
+                            }
+                        } else if s < self.rx_hi {
+                            self.filled.insert(s);
+                        }
+                        if s > self.rx_hi {
+                            self.rx_hi = s;
+                        }
+                        if self.filled.len() > 10_000 {
+                            self.filled.clear();
+                        }
+                    }
                     self.rx_seqs.insert(s);
                     self.ack_buf[link].push(s);
                     if self.ack_buf[link].len() >= 10 {
@@ -556,7 +579,20 @@ impl LoopSim {
                     }
                     if self.rx_count % 16 == 0 {
                         // SRT-level traffic for the client: a cumulative ACK, now and then a NAK or other control
-                        let top = *self.rx_seqs.iter().next_back().unwrap();
+                        let mut top = *self.rx_seqs.iter().next_back().unwrap();
+                        if self.profile == "outage" {
+                            // as SRT does it: the cumulative ACK does not move past a packet that has not arrived -- until
+                            // that packet is too late to matter (2.5 s), when it is given up.  What was sent into a
+                            // black hole therefore stays outstanding on the uplink that carried it for a while.
+                            while let Some((s0, t0)) = self.holes.front().copied() {
+                                if now >= t0 + 2_500 || self.filled.remove(&s0) {
+                                    self.holes.pop_front();
+                                } else {
+                                    top = top.min(s0.saturating_sub(1));
+                                    break;
+                                }
+                            }
+                        }
                         let mut p = vec![(self.rx_count & 0xff) as u8; 44];
                         p[0..2].copy_from_slice(&SRT_TYPE_ACK.to_be_bytes());
                         p[16..20].copy_from_slice(&top.to_be_bytes());
@@ -756,6 +792,9 @@ impl Engine for LoopSim {
         self.ack_ctr = 0;
         self.bind_phase = 0;
         self.run_no += 1;
+        self.holes.clear();
+        self.filled.clear();
+        self.rx_hi = 0;
         self.swallow = None;
         self.swallow_told = false;
         self.blackout_phase = 0;
@@ -1025,7 +1064,16 @@ impl Engine for LoopSim {
         let n = std::env::var("VH_LINKS").ok().and_then(|s| s.parse().ok()).unwrap_or_else(|| rng.random_range(lo..=4));
         let steps = std::env::var("VH_STEPS").ok().and_then(|s| s.parse().ok()).unwrap_or(3000u64);
         let rtt: Vec<u64> = (0..n).map(|_| [3u64, 8, 20, 45, 90][rng.random_range(0..5)]).collect();
-        let timeout = if profile == "outage" { [2000u64, 5000, 8000][rng.random_range(0..3)] } else { 5000 };
+        // (dense outage runs are there for the stall guard: the victim must not be torn down before the latch has been
+        // seen engaged in a few stats lines)
+        let timeout = if profile == "outage" && std::env::var("VH_DENSE").is_ok() {
+            let _ = rng.random_range(0..3);
+            8000
+        } else if profile == "outage" {
+            [2000u64, 5000, 8000][rng.random_range(0..3)]
+        } else {
+            5000
+        };
         json!({"links": n, "profile": profile, "steps": steps, "rtt": rtt, "timeout": timeout,
                "classic": rng.random_range(0..3) == 0, "seed": rng.random_range(0..1000)})
     }
@@ -1057,12 +1105,12 @@ impl Engine for LoopSim {
                 // dense runs: once the victim's backlog has gone stale (the stall guard has it latched) the guard is
                 // switched off for a few seconds, then on again
                 if self.dense && !self.victim_repaired {
-                    if self.guard_phase == 0 && now > t0 + 3_400 {
+                    if self.guard_phase == 0 && now > t0 + 4_400 {
                         self.guard_phase = 1;
                         self.bump("guard_switched_off_mid_outage");
                         return Some(json!({"ev": "SetCfg", "guard": false}));
                     }
-                    if self.guard_phase == 1 && now > t0 + 7_000 {
+                    if self.guard_phase == 1 && now > t0 + 7_400 {
                         self.guard_phase = 2;
                         return Some(json!({"ev": "SetCfg", "guard": true}));
                     }
